@@ -44,7 +44,7 @@ const allocLimit = 8 << 30
 func allocChild(c *core.Ctx, j job) {
 	w := bufio.NewWriter(os.Stdout)
 	defer w.Flush()
-	res := &jobResult{Class: j.Class, ByEff: map[string]int{}, Latent: map[string]int{}}
+	res := &jobResult{Class: j.Class, ByEff: map[string]int{}, Latent: map[string]int{}, ByOwn: map[string]int{}}
 	finish := func() {
 		rj, _ := json.Marshal(res)
 		fmt.Fprintf(w, "RESULT %s\nDONE\n", rj)
